@@ -60,22 +60,21 @@ SPEC = {
                 'HomeChain.GetSupportedChainsForPeer answers are an oracle (scripted fake); fChain is an input (the plugin reads it from its local home-chain view)',
                 'libocr delivers at most one observation per oracle and only observations that passed ValidateObservation'],
     'assumptions': ['observations are decodable JSON (decode errors are C13)'],
-    'level_text': 'Proof: 43 closed Coq theorems. 20 property theorems over the executable model of ValidateObservation and the five merges, for all fChain maps and all '
+    'level_text': 'Proof: 43 closed Coq theorems. 20 property theorems over the executable model of ValidateObservation and the five merges, for all fChain maps and '
                   'validated observation lists with distinct oracles: every merged commit report (f of the DESTINATION, key = its own source chain), message, ready token '
-                  'slot, nonce and costly id has at least f+1 distinct reporters of the identical item and no validated observation votes twice for one item (C07_commit, '
-                  '_message, _token, _nonce, _costly); an item with that support is always present and the merge never fails on validated observations (C07_*_complete, '
-                  'C07_non_blocking at full strength since repair F13d). System level (ExecSys: Plugin.Outcome composed from the merge, pending and report-builder '
-                  'models): C07_used_needs_quorum_cycle - a message in the execute report of a Filter round has its commit report agreed by f_dest+1 oracles under its '
-                  'own source chain in round 1, its content by f_k+1 in round 2, every token-data slot by f_k+1, its nonce by f_dest+1 in round 3, and fewer than '
-                  'f_dest+1 costly flags (C07_token_data_cycle, C07_not_costly_cycle, C07_cycle_nonvacuous). Unrepaired code refuted: F13 (one oracle reaching f+1 '
-                  "alone), F13d, F75 (reports counted at the f of the filing key), costly ids; F13e (an extra token slot from one oracle makes a message's token data not "
-                  'ready, C07_token_non_blocking_refuted) is a known finding, shown not repairable at validation. Judge soundness (23 C07_judge_*): for the 3 function '
-                  "sinks and the cycle sinks the executable property accepts the model's output (proved in general for whole histories, C07_judge_sys_model_passes) and "
-                  'implies the Prop-level clauses, clause by clause. Correspondence, every run: the real ValidateObservation + getConsensusObservation and Plugin.Outcome '
-                  'on generated DONs; four real long-lived execute plugins driven through whole cycles with a Byzantine oracle, f+1 colluders, lagging readers and the '
-                  "home-chain f map moving between rounds, every round judged against exec_round with that round's f map (ExecSys_cycle_*). Translation tie (4 theorems, "
-                  'C07_gen.v): FPlus1, GteFPlusOne, SeqNumRange.Overlaps. Partial: two valid items under one map key are stored by Go map order (F17 / C10), so '
-                  'completeness is judged on the key only; the cycle judge has no class for F14 (the cycle harness never reaches the size / gas limits).',
+                  'slot, nonce and costly id has at least f+1 distinct reporters of the identical item and no observation votes twice for one item (C07_commit, _message, '
+                  '_token, _nonce, _costly); an item with that support is always present and the merge never fails on validated observations (C07_*_complete, '
+                  'C07_non_blocking). System level (ExecSys: Plugin.Outcome composed from the merge, pending and report-builder models): C07_used_needs_quorum_cycle - a '
+                  'message in the execute report of a Filter round has its commit report agreed by f_dest+1 oracles under its own source chain in round 1, its content by '
+                  'f_k+1 in round 2, every token-data slot by f_k+1, its nonce by f_dest+1 in round 3, and fewer than f_dest+1 costly flags (C07_token_data_cycle, '
+                  'C07_not_costly_cycle). Unrepaired code refuted: F13 (one oracle reaching f+1 alone), F13d, F75 (reports counted at the f of the filing key); F13e (an '
+                  "extra token slot from one oracle makes a message's token data not ready) is a known finding, not repairable at validation. Judge soundness (23 "
+                  "C07_judge_*): for the 3 function sinks and the cycle sinks the executable property accepts the model's output (in general for whole histories) and "
+                  'implies the Prop-level clauses. Correspondence, every run: the real ValidateObservation + getConsensusObservation and Plugin.Outcome on generated '
+                  'DONs; four real long-lived execute plugins driven through whole cycles with a Byzantine oracle, f+1 colluders, lagging readers and the home-chain f '
+                  "map moving between rounds, every round judged against exec_round with that round's f map (ExecSys_cycle_*). Translation tie (4 theorems, C07_gen.v): "
+                  'FPlus1, GteFPlusOne, SeqNumRange.Overlaps. Partial: two valid items under one map key are stored by Go map order (F17 / C10), so completeness is '
+                  'judged on the key only.',
     'level_note': "Trusted: Coq kernel, hand-written model and theorem statements, differential harness, leaf translator. Specific: item identity is the implementation's "
                   'own id function (sha3 of the %v rendering, TokenDataHash) - the harness interns the same rendering, other item fields are functions of it; '
                   'HomeChain.GetSupportedChainsForPeer answers are a scripted fake and fChain is an input (the plugin reads it from its local home-chain view); '
